@@ -1271,8 +1271,10 @@ class FuncEmitter:
                 self.out.append('%s.e[%d] = ((s32)%s.e[%d] < 0) ? (u32)(0u - %s.e[%d]) : (%s.e[%d] == 0 ? 0u : %s.e[%d]);' % (r, i, A[1], i, A[0], i, A[1], i, A[0], i))
             return
         if short == 'sse3.hadd.ps':
-            self.out.append('%s.e[0] = %s.e[0] + %s.e[1]; %s.e[1] = %s.e[2] + %s.e[3]; %s.e[2] = %s.e[0] + %s.e[1]; %s.e[3] = %s.e[2] + %s.e[3];' % (
-                r, A[0], A[0], r, A[0], A[0], r, A[1], A[1], r, A[1], A[1]))
+            # HADDPS: dst = {a0 + a1, a2 + a3, b0 + b1, b2 + b3}; the sums go through float_binop so that a contract's relational
+            # abstraction of fadd (uf_float) is applied to them like to every other addition of the function
+            for i, (src, j) in enumerate(((A[0], 0), (A[0], 2), (A[1], 0), (A[1], 2))):
+                self.out.append('%s.e[%d] = %s;' % (r, i, self.float_binop('fadd', '%s.e[%d]' % (src, j), '%s.e[%d]' % (src, j + 1), 'float')))
             return
         if short in ('sse41.round.ps', 'sse41.round.pd'):
             m = imm(1)
@@ -1287,7 +1289,8 @@ class FuncEmitter:
             m = imm(2)
             t = [('%s' % self.float_binop('fmul', '%s.e[%d]' % (A[0], i), '%s.e[%d]' % (A[1], i), 'float')) if (m >> (4 + i)) & 1 else '0.0f' for i in range(4)]
             tmp = self.tmp('float')
-            self.out.append('%s = ((%s + %s) + (%s + %s));' % (tmp, t[0], t[1], t[2], t[3]))
+            fa = lambda x, y: self.float_binop('fadd', x, y, 'float')
+            self.out.append('%s = %s;' % (tmp, fa(fa(t[0], t[1]), fa(t[2], t[3]))))
             for i in range(4):
                 self.out.append('%s.e[%d] = %s;' % (r, i, tmp if (m >> i) & 1 else '0.0f'))
             return
